@@ -123,7 +123,7 @@ pub fn gen_session(seed: u64, run: u64, thorough: bool) -> Session {
                         models[&uri].text.clone()
                     } else {
                         let (t, _) = crate::gen::mutate(&mut rng, &models[&uri].text);
-                        t
+                        if crate::lsp::has_lone_cr(&t) { t.replace('\r', "") } else { t }
                     };
                     models.insert(uri.clone(), DocModel { text: text.clone() });
                     ops.push(PlannedOp::new(Op::Close { uri: uri.clone() }));
@@ -269,6 +269,9 @@ pub fn check(s: &Session, h: &History, stats: &mut Stats) -> Option<Violation> {
     for (i, p) in s.ops.iter().enumerate() {
         match &p.op {
             Op::Open { uri, text } => {
+                if crate::lsp::has_lone_cr(text) {
+                    return None; // not a history of the property (LF / CRLF only)
+                }
                 if !models.contains_key(uri) {
                     order.push(uri.clone());
                 }
@@ -281,7 +284,7 @@ pub fn check(s: &Session, h: &History, stats: &mut Stats) -> Option<Violation> {
             Op::Change { uri, edits } => {
                 if let Some(m) = models.get_mut(uri) {
                     for e in edits {
-                        if m.apply(e).is_err() {
+                        if m.apply(e).is_err() || crate::lsp::has_lone_cr(&m.text) {
                             return None; // not a C16 history
                         }
                     }
